@@ -396,11 +396,12 @@ def run(tier="quick", root="/repo", evidence_dir=None, quiet=False):
         "environment); they are imported for name resolution only",
     ])
     repo = get_repo(root)
-    rule_r1(rep, repo)
-    gen_keys = rule_r2(rep, repo)
-    rule_r3(rep, repo, gen_keys)
-    rule_r4(rep, repo)
-    rule_r5(rep, repo, None)
+    rep.attempt(rule_r1, rep, repo)
+    gen_keys = rep.attempt(rule_r2, rep, repo)
+    if gen_keys is not None:
+        rep.attempt(rule_r3, rep, repo, gen_keys)
+    rep.attempt(rule_r4, rep, repo)
+    rep.attempt(rule_r5, rep, repo, None)
     import numpy
     import scipy
     rep.extra.update({"numpy": numpy.__version__, "scipy": scipy.__version__,
